@@ -103,27 +103,31 @@ VSplit(s, e) ==
       NRows(i) == IF i > Len(P) THEN 0 ELSE Len(P[i].rows) + NRows(i + 1)
       RECURSIVE NJ(_)
       NJ(i) == IF i > Len(P) THEN 0 ELSE Len(P[i].jumps) + NJ(i + 1)
-  IN IF Len(P) # e.k THEN <<"split-part-count", s>>
-     ELSE IF Concat([i \in 1..Len(P) |-> P[i].hist]) # s.hist THEN <<"split-states-concat", s>>
-     ELSE IF \E i \in 1..Len(P) : P[i].offset < 0 THEN <<"split-events-no-offset", s>>
-     ELSE IF NRows(1) # Cardinality(whole) \/ UNION {back(i) : i \in 1..Len(P)} # whole THEN <<"split-events-exactly-once", s>>
-     ELSE IF \E i \in 1..Len(P) : \E r \in SeqToSet(P[i].rows) : r[6] < 0 THEN <<"split-time-negative", s>>
-     ELSE IF \E i \in 1..(Len(P) - 1) : \E r \in back(i), q \in back(i + 1) : q[6] < r[6] THEN <<"split-not-chronological", s>>
-     ELSE IF \E i \in 1..(Len(P) - 1) : P[i].offset > P[i + 1].offset THEN <<"split-not-chronological", s>>
-     ELSE IF \E i \in 1..Len(P) : SeqToSet(P[i].jumps) # SeqToSet(JumpRows(P[i].rows, A0(s), e.m)) THEN <<"split-part-jumps", s>>
-     ELSE IF \E i \in 1..Len(P) : ~(jback(i) \subseteq wj) THEN <<"split-part-jump-not-in-whole", s>>
-     ELSE IF NJ(1) > Cardinality(wj) THEN <<"split-jump-counts-exceed", s>>
-     ELSE <<"ok", [s EXCEPT !.parts = P, !.m = e.m]>>
+      s2 == [s EXCEPT !.parts = P, !.m = e.m]          \* remembered whatever the verdict, for the Rates record that follows
+  IN IF Len(P) # e.k THEN <<"split-part-count", s2>>
+     ELSE IF Concat([i \in 1..Len(P) |-> P[i].hist]) # s.hist THEN <<"split-states-concat", s2>>
+     ELSE IF \E i \in 1..Len(P) : P[i].offset < 0 THEN <<"split-events-no-offset", s2>>
+     ELSE IF NRows(1) # Cardinality(whole) \/ UNION {back(i) : i \in 1..Len(P)} # whole THEN <<"split-events-exactly-once", s2>>
+     ELSE IF \E i \in 1..Len(P) : \E r \in SeqToSet(P[i].rows) : r[6] < 0 THEN <<"split-time-negative", s2>>
+     ELSE IF \E i \in 1..(Len(P) - 1) : \E r \in back(i), q \in back(i + 1) : q[6] < r[6] THEN <<"split-not-chronological", s2>>
+     ELSE IF \E i \in 1..(Len(P) - 1) : P[i].offset > P[i + 1].offset THEN <<"split-not-chronological", s2>>
+     ELSE IF \E i \in 1..Len(P) : SeqToSet(P[i].jumps) # SeqToSet(JumpRows(P[i].rows, A0(s), e.m)) THEN <<"split-part-jumps", s2>>
+     ELSE IF \E i \in 1..Len(P) : ~(jback(i) \subseteq wj) THEN <<"split-part-jump-not-in-whole", s2>>
+     ELSE IF NJ(1) > Cardinality(wj) THEN <<"split-jump-counts-exceed", s2>>
+     ELSE <<"ok", s2>>
 
 (* rates(k): e.sums[x] = <<la, lb, sum over parts of the per-part count, k*sum(c^2) - (sum c)^2>> *)
 VRates(s, e) ==
   LET P == s.parts
-      cnt(i, la, lb) == LabelCount(P[i].jumps, e.labels, la, lb)
+      (* expected per-part counts come from the spec: classifier on the part's events with the residence of the whole *)
+      cnt(i, la, lb) == LabelCount(JumpRows(P[i].rows, A0(s), s.m), e.labels, la, lb)
+      whole(la, lb) == LabelCount(JumpRowsOfHist(s.hist, s.m), e.labels, la, lb)
       RECURSIVE S1(_, _, _)
       S1(i, la, lb) == IF i > Len(P) THEN 0 ELSE cnt(i, la, lb) + S1(i + 1, la, lb)
       RECURSIVE S2(_, _, _)
       S2(i, la, lb) == IF i > Len(P) THEN 0 ELSE cnt(i, la, lb) * cnt(i, la, lb) + S2(i + 1, la, lb)
-  IN IF \A x \in DOMAIN e.sums : LET la == e.sums[x][1] lb == e.sums[x][2] IN
+  IN IF \E x \in DOMAIN e.sums : e.sums[x][3] > whole(e.sums[x][1], e.sums[x][2]) THEN <<"rates-count-more-jumps-than-the-counter", s>>
+     ELSE IF \A x \in DOMAIN e.sums : LET la == e.sums[x][1] lb == e.sums[x][2] IN
           /\ e.sums[x][3] = S1(1, la, lb)
           /\ e.sums[x][4] = Len(P) * S2(1, la, lb) - S1(1, la, lb) * S1(1, la, lb)
      THEN <<"ok", s>> ELSE <<"rates", s>>
